@@ -210,71 +210,78 @@ def run(ctx, model):
     ctx.extra["str_or_pregex_parameters"] = len(params)
     public = [(f, p, var) for f, p, var in params if _is_public(f)]
     ctx.floor("R-CTX", len(public), 40, "public str|Pregex parameters")
-    n_ctx = 0
+    def ctx_item(ctx, item):
+        f, pname, var, s, position = item
+        E = escape_of(model, s)
+        call_str = _caller(model, f, pname, var, position, s)
+        if call_str is None:
+            raise AnalysisError(f"R-CTX: no argument recipe for {f.short}({pname}); extend the table in c01.py")
+        res_s = _outcomes(model, call_str)
+        res_p = set()
+        for t in TYPE_NAMES:
+            if t == "Empty":
+                continue
+            for rep in ((True, False) if t == "Assertion" else (True,)):
+                call_p = _caller(model, f, pname, var, position, ("operand", E, t, rep))
+                res_p |= _outcomes(model, call_p)
+        inp = f"{f.short}({pname}{'[' + str(position) + ']' if var else ''}={s!r})"
+        ctx.instance("R-CTX", key=inp, sample=f"{inp}: {sorted(res_s)[:2]} ...")
+        refused = sorted(x for x in res_s if x in ("!NonFixedWidthPatternException", "!InvalidArgumentTypeException",
+                                                   "!InvalidArgumentValueException", "!EmptyNegativeAssertionException"))
+        if refused:
+            ctx.violation("R-CTX", f.relpath, f.short, f"parameter {pname}: literal refused",
+                          "a plain (non-empty) string operand is refused although a literal is always a valid, fixed-width pattern",
+                          f.node.lineno, inp=inp, detail=f"{refused}")
+        bad = res_s - res_p
+        if bad:
+            raw = [x for x in bad if s in x and E not in x]
+            ctx.violation("R-CTX", f.relpath, f.short, f"parameter {pname}",
+                          "a plain string operand does not contribute exactly its escaped text"
+                          + (" (the raw string reaches the pattern)" if raw else ""), f.node.lineno, inp=inp,
+                          detail=f"with the str: {sorted(bad)[:2]}; with Pregex(escaped): {sorted(res_p)[:2]}")
+        return 1
+
+    items = []
     for f, pname, var in public:
         lookaround = any(k in (f.short + (f.cls.name if f.cls else "")).lower() for k in ("preceded", "enclosed", "followed"))
         for s in ((WITNESSES[0], "a.b", "\\*", "a\\+b\\?", WITNESSES[12]) if lookaround else (WITNESSES[0], "a.b", WITNESSES[12])):
-            E = escape_of(model, s)
             for position in ((0, 1, 2) if var else (0,)):
-                call_str = _caller(model, f, pname, var, position, s)
-                if call_str is None:
-                    raise AnalysisError(f"R-CTX: no argument recipe for {f.short}({pname}); extend the table in c01.py")
-                res_s = _outcomes(model, call_str)
-                res_p = set()
-                for t in TYPE_NAMES:
-                    if t == "Empty":
-                        continue
-                    for rep in ((True, False) if t == "Assertion" else (True,)):
-                        call_p = _caller(model, f, pname, var, position, ("operand", E, t, rep))
-                        res_p |= _outcomes(model, call_p)
-                n_ctx += 1
-                inp = f"{f.short}({pname}{'[' + str(position) + ']' if var else ''}={s!r})"
-                ctx.instance("R-CTX", key=inp, sample=f"{inp}: {sorted(res_s)[:2]} ...")
-                refused = sorted(x for x in res_s if x in ("!NonFixedWidthPatternException", "!InvalidArgumentTypeException",
-                                                           "!InvalidArgumentValueException", "!EmptyNegativeAssertionException"))
-                if refused:
-                    ctx.violation("R-CTX", f.relpath, f.short, f"parameter {pname}: literal refused",
-                                  "a plain (non-empty) string operand is refused although a literal is always a valid, fixed-width pattern",
-                                  f.node.lineno, inp=inp, detail=f"{refused}")
-                bad = res_s - res_p
-                if bad:
-                    raw = [x for x in bad if s in x and E not in x]
-                    ctx.violation("R-CTX", f.relpath, f.short, f"parameter {pname}",
-                                  "a plain string operand does not contribute exactly its escaped text"
-                                  + (" (the raw string reaches the pattern)" if raw else ""), f.node.lineno, inp=inp,
-                                  detail=f"with the str: {sorted(bad)[:2]}; with Pregex(escaped): {sorted(res_p)[:2]}")
+                items.append((f, pname, var, s, position))
+    n_ctx = sum(ctx.parallel(items, ctx_item))
     # ---------------- R-CTX (many string operands at once, classifier interpreted)
     # Cls(s1, ..., sk) with k = 4..6 plain strings must emit what Cls(Pregex(s1), ..., Pregex(sk)) emits
     variadic = [(f, p) for f, p, var in public if var and f.node.name == "__init__"]
     groups = [["a", "-", "z", "q"], ["+", "-", "*", "/"], ["]", "^", "a", "\\", "-"], ["ab", "c.d", "e|f", "(g)", "h$", "^i"],
               ["0", "-", "9", ".", "e"], ["x", "y", "z", "w"], [WITNESSES[12], "a", "b", "c"]]
-    for f, pname in variadic:
+    def many_item(ctx, item):
+        f, pname, grp = item
         ci = f.cls
         a = f.node.args
         lead = [p.arg for p in a.posonlyargs + a.args if p.arg != "self"]
-        for grp in groups:
-            def with_str(it, ci=ci, grp=grp, lead=lead):
-                args = [make_operand(model, "st", "Other", True) for _ in lead] + list(grp)
-                return it.construct(ci, args)
 
-            def with_pregex(it, ci=ci, grp=grp, lead=lead):
-                args = [make_operand(model, "st", "Other", True) for _ in lead] + [it.construct(P, [x]) for x in grp]
-                return it.construct(ci, args)
-            rs = {o.text if o.kind == "return" else f"!{o.exc.name}" for o in B.run_thunk(model, with_str, real_classifier=True)}
-            rp = {o.text if o.kind == "return" else f"!{o.exc.name}" for o in B.run_thunk(model, with_pregex, real_classifier=True)}
-            inp = f"{ci.name}({', '.join(['<match>'] * len(lead) + [repr(x)[:12] for x in grp])})"
-            ctx.instance("R-CTX", key=inp, sample=f"{inp} -> {sorted(rs)[:1]}")
-            if rs != rp and not all(x.startswith("!") for x in rs | rp):
-                ctx.violation("R-CTX", f.relpath, f.short, f"parameter {pname}: several literals",
-                              "several plain string operands do not contribute exactly their escaped texts", f.node.lineno,
-                              inp=inp, detail=f"with strings: {sorted(rs)[:2]}; with Pregex(s): {sorted(rp)[:2]}")
-            for t in rs:
-                if not t.startswith("!"):
-                    from ..absdom import compiles
-                    okc, why = compiles(t)
-                    if not okc:
-                        ctx.violation("R-CTX", f.relpath, f.short, f"parameter {pname}: several literals",
-                                      "literal operands yield a pattern that re rejects", f.node.lineno, inp=inp, detail=f"{t!r}: {why}")
+        def with_str(it):
+            args = [make_operand(model, "st", "Other", True) for _ in lead] + list(grp)
+            return it.construct(ci, args)
+
+        def with_pregex(it):
+            args = [make_operand(model, "st", "Other", True) for _ in lead] + [it.construct(P, [x]) for x in grp]
+            return it.construct(ci, args)
+        rs = {o.text if o.kind == "return" else f"!{o.exc.name}" for o in B.run_thunk(model, with_str, real_classifier=True)}
+        rp = {o.text if o.kind == "return" else f"!{o.exc.name}" for o in B.run_thunk(model, with_pregex, real_classifier=True)}
+        inp = f"{ci.name}({', '.join(['<match>'] * len(lead) + [repr(x)[:12] for x in grp])})"
+        ctx.instance("R-CTX", key=inp, sample=f"{inp} -> {sorted(rs)[:1]}")
+        if rs != rp and not all(x.startswith("!") for x in rs | rp):
+            ctx.violation("R-CTX", f.relpath, f.short, f"parameter {pname}: several literals",
+                          "several plain string operands do not contribute exactly their escaped texts", f.node.lineno,
+                          inp=inp, detail=f"with strings: {sorted(rs)[:2]}; with Pregex(s): {sorted(rp)[:2]}")
+        for t in rs:
+            if not t.startswith("!"):
+                from ..absdom import compiles
+                okc, why = compiles(t)
+                if not okc:
+                    ctx.violation("R-CTX", f.relpath, f.short, f"parameter {pname}: several literals",
+                                  "literal operands yield a pattern that re rejects", f.node.lineno, inp=inp, detail=f"{t!r}: {why}")
+    ctx.parallel([(f, pname, grp) for f, pname in variadic for grp in groups], many_item)
 
     # ---------------- R-AFFIX
     ESS = "pregex.meta.essentials"
